@@ -604,7 +604,7 @@ func Copy(c *Ctx) error {
 				for _, p := range []string{"a", "a/a", "a/a/a", "a/a/b", "a/ab", "a/b", "a.txt", "ab", "ab/a", "ab/b", "b", "b/a", "b/a/a", "c"} {
 					isDir := p == "a" || p == "a/a" || p == "ab" || p == "b" || p == "b/a"
 					if isDir {
-						full = append(full, model.Entry{Path: p, Type: "dir", Perm: []uint32{0750, 0711, 0700}[len(full)%3], Uid: uint32(1 + len(full)%4), Gid: 2, Mtime: uniqueMtime()})
+						full = append(full, model.Entry{Path: p, Type: "dir", Perm: []uint32{0750, 0775, 01777, 0711, 02775}[len(full)%5], Uid: uint32(1 + len(full)%4), Gid: 2, Mtime: uniqueMtime()})
 					} else {
 						e := newFile(c.Rand, genOpts{})
 						e.Path = p
@@ -678,7 +678,9 @@ func Copy(c *Ctx) error {
 				t := filterTree(c)
 				for k := range t {
 					if t[k].Type == "dir" {
-						t[k].Perm = []uint32{0750, 0711, 0700, 0755}[c.Rand.Intn(4)]
+						// (also modes mkdir does not produce under umask 022, and special bits: an ancestor created on demand
+						// must be given the source directory's mode explicitly)
+						t[k].Perm = []uint32{0750, 0711, 0700, 0755, 0775, 01777, 02775, 0777}[c.Rand.Intn(8)]
 						t[k].Uid, t[k].Gid = uint32(1+c.Rand.Intn(5)), uint32(1+c.Rand.Intn(5))
 						if c.Rand.Intn(3) == 0 {
 							t[k].Xattrs = map[string]string{"user.d": fmt.Sprint(k)}
